@@ -83,18 +83,42 @@ Print Assumptions C16_timer_own_interval.
 (* ---------------------------------------------------------------------------------------------------- *)
 
 (* the counter goes up by one exactly when an exception whose class descends from a configured class escapes the
-   body; no other counter moves *)
-Theorem C16_counts_iff_matching_escapes : forall (c : mid) (excs : list cls) (b : body) (s : st),
+   body; no other counter moves.  The configuration is any exception spec: a class or a tuple of specs, nested,
+   empty, with repetitions; its classes are the ones named anywhere in it *)
+Theorem C16_counts_iff_matching_escapes : forall (c : mid) (excs : espec) (b : body) (s : st),
   (forall c', cnt (snd (eval (Call (WCount c excs) b) s)) c' =
               cnt (snd (eval b s)) c' + (if N.eqb c' c && escapes_matching b excs then 1 else 0)) /\
   (escapes_matching b excs = true <->
-   exists k o d, fst (eval b s) = Exn k o /\ In d excs /\ Ancestor k d).
+   exists k o d, fst (eval b s) = Exn k o /\ In d (spec_classes excs) /\ Ancestor k d).
 Proof.
   exact (fun c excs b s => conj (counts_call c excs b s)
-           (eq_ind_r (fun r => escapes_matching b excs = true <-> exists k o d, r = Exn k o /\ In d excs /\ Ancestor k d)
+           (eq_ind_r (fun r => escapes_matching b excs = true <->
+                               exists k o d, r = Exn k o /\ In d (spec_classes excs) /\ Ancestor k d)
                      (escapes_matching_iff b excs) (eval_result b s))).
 Qed.
 Print Assumptions C16_counts_iff_matching_escapes.
+
+(* the factory hands the configuration on as it was given: with an argument, `except <that argument>` decides -
+   also when the argument is a false value such as the empty tuple; without one, `except Exception` *)
+Theorem C16_counts_as_configured : forall (c : mid) (arg : option espec) (b : body) (s : st),
+  let cfg := match arg with Some e => e | None => EClass C_Exception end in
+  (forall c', cnt (snd (eval (Call (count_exceptions c arg) b) s)) c' =
+              cnt (snd (eval b s)) c' + (if N.eqb c' c && escapes_matching b cfg then 1 else 0)) /\
+  (escapes_matching b cfg = true <-> exists k o, fst (eval b s) = Exn k o /\ Matches k cfg).
+Proof.
+  exact (fun c arg b s => conj (counts_configured c arg b s)
+           (eq_ind_r (fun r => escapes_matching b (match arg with Some e => e | None => EClass C_Exception end) = true <->
+                               exists k o, r = Exn k o /\ Matches k (match arg with Some e => e | None => EClass C_Exception end))
+                     (escapes_matching_except b _) (eval_result b s))).
+Qed.
+Print Assumptions C16_counts_as_configured.
+
+(* a configuration that names no class - (), ((),), ((), ()) ... - counts nothing, whatever escapes *)
+Theorem C16_nothing_configured_nothing_counted : forall (c : mid) (e : espec) (b : body) (s : st),
+  spec_classes e = [] ->
+  forall c', cnt (snd (eval (Call (count_exceptions c (Some e)) b) s)) c' = cnt (snd (eval b s)) c'.
+Proof. exact counts_nothing_configured. Qed.
+Print Assumptions C16_nothing_configured_nothing_counted.
 
 (* over a whole program: the counter moved by the number of its contexts a matching exception escaped from *)
 Theorem C16_counts_total : forall (b : body) (s : st) (c : mid), cnt (snd (eval b s)) c = cnt s c + counted c b.
@@ -105,11 +129,26 @@ Print Assumptions C16_counts_total.
    exactly the descendants of Exception - not KeyboardInterrupt, SystemExit, GeneratorExit *)
 Theorem C16_isinstance_is_descent :
   (forall k ds, isinstance_any k ds = true <-> exists d, In d ds /\ Ancestor k d) /\
-  (forall k, isinstance_any k default_exceptions = true <-> Ancestor k C_Exception) /\
+  (forall k, isinstance_spec k default_exceptions = true <-> Ancestor k C_Exception) /\
   (forall k, In k [C_BaseException; C_KeyboardInterrupt; C_SystemExit; C_GeneratorExit; C_UserBase; C_UserExit] ->
-             isinstance_any k default_exceptions = false).
+             isinstance_spec k default_exceptions = false).
 Proof. exact (conj isinstance_any_iff (conj default_matches default_excludes)). Qed.
 Print Assumptions C16_isinstance_is_descent.
+
+(* isinstance(value, spec) is what `except spec:` catches; it depends only on the set of classes the spec names
+   (nesting, order, repetition are immaterial); the empty tuple catches nothing; (e,) is e *)
+Theorem C16_isinstance_spec_is_except :
+  (forall k e, isinstance_spec k e = true <-> Matches k e) /\
+  (forall k e, isinstance_spec k e = true <-> exists d, In d (spec_classes e) /\ Ancestor k d) /\
+  (forall k e e', (forall d, In d (spec_classes e) <-> In d (spec_classes e')) ->
+                  isinstance_spec k e = isinstance_spec k e') /\
+  (forall k, isinstance_spec k (ETuple []) = false) /\
+  (forall k e, isinstance_spec k (ETuple [e]) = isinstance_spec k e).
+Proof.
+  exact (conj isinstance_spec_iff (conj isinstance_spec_classes (conj spec_same_classes
+          (conj empty_tuple_matches_nothing spec_singleton)))).
+Qed.
+Print Assumptions C16_isinstance_spec_is_except.
 
 (* ---------------------------------------------------------------------------------------------------- *)
 (* (b) binding and forwarding                                                                            *)
@@ -213,6 +252,23 @@ Example C16_example_base_exception :
   let r := eval b (init_st [10; 25]%Z) in
   fst r = Exn C_KeyboardInterrupt 9 /\ gau (snd r) 2 = 0%Z /\ olog (snd r) = [(4, 15%Z)] /\ cnt (snd r) 0 = 0.
 Proof. vm_compute. repeat split. Qed.
+
+(* configurations: the empty tuple counts nothing although a ValueError escapes; a nested tuple with a repeated
+   class counts once; KeyboardInterrupt is counted when it is configured and not by a sibling *)
+Example C16_example_configurations :
+  let run := fun arg k => cnt (snd (eval (Call (count_exceptions 0 arg) (Raise k 1)) (init_st []))) 0 in
+  run (Some (ETuple [])) C_ValueError = 0 /\ run None C_ValueError = 1 /\
+  run (Some (ETuple [ETuple []; ETuple [ETuple []]])) C_ValueError = 0 /\
+  run (Some (ETuple [EClass C_OSError; ETuple [EClass C_LookupError; EClass C_KeyError]; EClass C_KeyError])) C_UserKeyError = 1 /\
+  run (Some (ETuple [EClass C_KeyboardInterrupt])) C_KeyboardInterrupt = 1 /\
+  run (Some (ETuple [EClass C_SystemExit; EClass C_Exception])) C_KeyboardInterrupt = 0 /\
+  Matches C_UserKeyError (ETuple [EClass C_OSError; ETuple [EClass C_LookupError]]) /\
+  spec_classes (ETuple [ETuple []; ETuple [ETuple []]]) = [].
+Proof.
+  vm_compute. repeat split.
+  eapply m_tuple; [right; left; reflexivity|]. eapply m_tuple; [left; reflexivity|]. apply m_class.
+  repeat (first [ apply anc_refl | eapply anc_step; [reflexivity|] ]).
+Qed.
 
 (* why Timer.__call__ uses _new_timer(): ONE Timer object entered inside itself observes, for the outer block,
    the time since the INNER entry (40 - 20), not its own interval (40 - 10) *)
